@@ -15,6 +15,7 @@ struct Case {
     std::vector<uint8_t> bytes;
     int                  width{1};
     int                  alias{0}; // 1: strings also hold look-alike code points (jm::look_alike_cps); absent in older replay files
+    std::vector<uint64_t> nums;    // enumeration cases: the document is the array of these doubles (bit patterns)
 };
 
 struct Flags {
@@ -399,9 +400,98 @@ void run_width(const Case &c, pbt::Ctx &ctx) {
     }
 }
 
+// an array of doubles: stringified with 17 digits, parsed back, every element equal in value; the text is a fixed point
+template <typename Char_T>
+void run_numbers(const Case &c, pbt::Ctx &ctx) {
+    Value<Char_T> v;
+    for (uint64_t b : c.nums) {
+        double d;
+        memcpy(&d, &b, 8);
+        v += d;
+    }
+    StringStream<Char_T> ss;
+    v.Stringify(ss, 17U);
+    jm::Units       text = jm::units_of(ss.First(), ss.Length());
+    jm::Buf<Char_T> tb(text);
+    Value<Char_T>   back = JSON::Parse(tb.p, SizeT(tb.n));
+    if (!back.IsArray() || back.Size() != SizeT(c.nums.size())) {
+        ctx.fail("own-text-rejected", "array of doubles does not parse back to an array of the same length: " + jm::show(text));
+    }
+    for (SizeT i = 0; i < back.Size(); ++i) {
+        double       d;
+        const double got = back.GetValue(i) != nullptr ? back.GetValue(i)->GetNumber() : 0.0;
+        memcpy(&d, &c.nums[i], 8);
+        if (!(got == d)) {
+            char m[160];
+            snprintf(m, sizeof m, "element %u: %.17g came back as %.17g", unsigned(i), d, got);
+            ctx.fail("roundtrip-differs", std::string(m) + " text=" + jm::show(text));
+        }
+    }
+    StringStream<Char_T> ss2;
+    back.Stringify(ss2, 17U);
+    if (jm::units_of(ss2.First(), ss2.Length()) != text) {
+        ctx.fail("not-a-fixed-point", "stringify(parse(t)) != t: " + jm::show(text));
+    }
+    ctx.nontrivial();
+}
+
 struct H {
     using Case = ::Case;
     static const char *name() { return "C08 stringify/parse round trip and validity"; }
+    // "least-slack-<M>": arrays of 8 doubles walked with an even stride through the 12 binades whose top lies closest above a power of
+    // ten (see C11), M million doubles per shard
+    static void enumerate(pbt::Ctx &ctx, unsigned shard, unsigned nshards, const std::string &what) {
+        if (what.compare(0, 12, "least-slack-") != 0) {
+            fprintf(stderr, "unknown enumeration %s\n", what.c_str());
+            exit(3);
+        }
+        Qentem::MemoryRecord::data().enabled = false;
+        ctx.check_ledger                     = false;
+        struct Sliver {
+            double   ratio;
+            uint64_t lo, hi;
+        };
+        std::vector<Sliver> sl;
+        for (int k = -1021; k <= 1023; ++k) {
+            const double p = std::ldexp(1.0, k);
+            char         b[32];
+            snprintf(b, sizeof b, "1e%d", int(std::floor(std::log10(p))));
+            const double t = strtod(b, nullptr);
+            if (t > 0 && t <= p && p / t < 1.04) {
+                Sliver x;
+                x.ratio = p / t;
+                memcpy(&x.lo, &t, 8);
+                memcpy(&x.hi, &p, 8);
+                if (x.hi > x.lo) {
+                    sl.push_back(x);
+                }
+            }
+        }
+        std::sort(sl.begin(), sl.end(), [](const Sliver &a, const Sliver &b) { return a.ratio < b.ratio; });
+        if (sl.size() > 12) {
+            sl.resize(12);
+        }
+        const uint64_t total = strtoull(what.c_str() + 12, nullptr, 10) * 1000000ULL;
+        const uint64_t per   = total / (sl.empty() ? 1 : sl.size());
+        unsigned       wsel  = 0;
+        for (const Sliver &x : sl) {
+            const uint64_t span   = x.hi - x.lo;
+            const uint64_t stride = span / (per * nshards) + 1;
+            Case           c;
+            for (uint64_t bts = x.lo + stride * shard % span, n = 0; n < per && bts < x.hi; bts += stride * nshards, ++n) {
+                c.nums.push_back((n & 7) == 3 ? (bts | 0x8000000000000000ULL) : bts);
+                if (c.nums.size() == 8) {
+                    static const int w[] = {1, 2, 1, 4};
+                    c.width              = w[wsel++ & 3];
+                    if (pbt::exec_case_fast<H>(ctx, c) == pbt::Status::Fail) {
+                        return;
+                    }
+                    ctx.evaluations += 7; // eight numbers per document
+                    c.nums.clear();
+                }
+            }
+        }
+    }
     static rc::Gen<Case> gen() {
         using namespace rc;
         return gen::map(gen::tuple(gen::resize(300, gen::container<std::vector<uint8_t>>(gen::arbitrary<uint8_t>())), pbt::pick<int>({1, 1, 2, 4}), pbt::pick<int>({0, 0, 1})),
@@ -434,6 +524,16 @@ struct H {
         kv.put("bytes", hex);
         kv.put("width", c.width);
         kv.put("alias", c.alias);
+        if (!c.nums.empty()) {
+            std::string t;
+            char        b[24];
+            for (uint64_t x : c.nums) {
+                snprintf(b, sizeof b, "%016llx,", (unsigned long long)x);
+                t += b;
+            }
+            kv.put("nums", t);
+            return kv.text();
+        }
         return kv.text();
     }
     static Case from_text(const std::string &t) {
@@ -445,9 +545,23 @@ struct H {
         }
         c.width = int(kv.geti("width", 1));
         c.alias = int(kv.geti("alias", 0));
+        if (kv.has("nums")) {
+            std::string t = kv.get("nums");
+            for (size_t i = 0; i + 16 <= t.size(); i += 17) {
+                c.nums.push_back(strtoull(t.substr(i, 16).c_str(), nullptr, 16));
+            }
+        }
         return c;
     }
     static void run(const Case &c, pbt::Ctx &ctx) {
+        if (!c.nums.empty()) {
+            switch (c.width) {
+                case 1: run_numbers<char>(c, ctx); break;
+                case 2: run_numbers<char16_t>(c, ctx); break;
+                default: run_numbers<char32_t>(c, ctx); break;
+            }
+            return;
+        }
         switch (c.width) {
             case 1: run_width<char>(c, ctx); break;
             case 2: run_width<char16_t>(c, ctx); break;
